@@ -2292,7 +2292,302 @@ class C10(Prop):
                                          'str': impl.get(f'{kinds.get("str")}.{k}', {}).get('M')})
 
 
-PROPS = {p.name: p for p in [C01(), ALL(), C04(), C02(), C03(), C05(), C08(), C15(), C18(), C06(), C17(), C20(), C11(), C12(), C13(), C14(), C09(), C19(), C07(), C10()]}
+# ------------------------------------------------------------------------------------------------
+# C16: nested inputs
+
+def _nested_worker(args):
+    import subprocess, vcheck as vc
+    lines = args
+    text = '\n'.join(lines) + '\n'
+    pi = subprocess.run([os.path.join(vc.HBIN_DIR, 'h_nested')], input=text, stdout=subprocess.PIPE, stderr=subprocess.PIPE, text=True,
+                        timeout=1800, preexec_fn=vc.limit_mem)
+    pm = subprocess.run([vc.DRIVER], input=text, stdout=subprocess.PIPE, stderr=subprocess.PIPE, text=True, timeout=1800)
+    return pi.returncode, pi.stdout, pm.returncode, pm.stdout
+
+
+def render_ng(t):
+    op = t[0]
+    if op == 'lift':
+        return 'lift ' + gen.render(t[1])
+    if op == 'nest':
+        return 'nest ' + render_ng(t[1]) + ' ' + gen.render(t[2])
+    if op in ('nthen', 'nor'):
+        return op + ' ' + render_ng(t[1]) + ' ' + render_ng(t[2])
+    return op + ' ' + render_ng(t[1])
+
+
+def ng_depth(t):
+    if t[0] == 'lift':
+        return 0
+    if t[0] == 'nest':
+        return 1 + ng_depth(t[1])
+    return max(ng_depth(x) for x in t[1:])
+
+
+class C16(Prop):
+    name = 'C16'; module = 'C16'; claimed = True
+    title = 'Nested inputs are parsed completely, in isolation, and report back faithfully'
+    bins = ['h_nested']
+    GIDS = [1000, 1001, 1002, 1003]
+    rule = ('token trees: group tokens 1000..1003 whose children are drawn from {a, b} and group tokens (random tables incl. empty groups, '
+            'depth up to 4, a group that contains itself), every level an Input::map over (token, span) pairs with gaps 0/1/3; two-level '
+            'grammars: sequence / ordered choice / option / span capture containing nested_in to depth 4, leaves from the C01/C02 classes '
+            'with validate emitters, recovery, repetition; token parsers select/one_of over all or some group ids, with a prefix or a '
+            'suffix; all outer inputs up to length 3 over {a, b, g0, g1} plus literals over the deeper groups; parse and check; '
+            'three implementation-only families: nest(a, select g) on [g] = a on children(g) (output and every error), remainder after a '
+            'nested parse = the outer tokens after the group, choice over a failed nested parse = its other alternative; '
+            'non-trivial = the input contains a group token')
+    level_text = ('refinement theorem for the two-level language (machine of nested_in/with_input -> recursive reading, every grammar, token '
+                  'tree, mode, fuel), completeness / leftover-fails / backtracking / failure-merge theorems (Lean); outputs, error lists and '
+                  'spans of the real crate over Input::map token trees compared with the reading and the model, plus three '
+                  'implementation-only metamorphic families')
+    why = 'acceptance / output / emitted errors differ from the reading applied recursively to the token tree'
+
+    # leaves of every level
+    def leaves(self):
+        A, B = gen.A, gen.B
+        return [('any',), ('just', [A]), ('just', [B]), ('oneof', [A, B]), ('end',), ('empty',), ('just', [A, B]),
+                ('validate', 'always', 5, 1, ('any',)), ('validate', ('tokis', A), 6, 2, ('oneof', [A, B])),
+                ('collect', 'vec', ('rep', ('just', [A]), 0, None)), ('collect', 'vec', ('rep', ('any',), 1, None)),
+                ('collect', 'string', ('rep', ('oneof', [A, B]), 0, 2)),
+                ('recvia', ('just', [A]), ('to', ('vnat', 9), ('any',))), ('recvia', ('just', [B]), ('to', ('vnat', 8), ('empty',))),
+                ('recskip', ('just', [A]), ('any',), ('just', [B]), ('vnat', 7)),
+                ('then', ('just', [A]), ('just', [B])), ('ornot', ('just', [A])), ('or', ('just', [A, B]), ('just', [A])),
+                ('mwspan', ('any',)), ('mwstate', ('any',)), ('tospan', ('oneof', [A, B])),
+                ('trymap', ('tokis', B), 4, 2, ('any',)), ('filter', ('tokis', A), ('any',)), ('cfail', 3),
+                ('label', 1, False, ('just', [A])), ('not', ('just', [B])), ('rewind', ('just', [A])),
+                ('andis', ('any',), ('just', [A]))]
+
+    def token_parsers(self, rng):
+        G = self.GIDS
+        A, B = gen.A, gen.B
+        return [('select', G), ('select', G), ('oneof', G), ('select', G[:1]), ('select', G[1:3]), ('oneof', G[:2]),
+                ('ithen', ('just', [A]), ('select', G)), ('theni', ('select', G), ('ornot', ('just', [B]))),
+                ('theni', ('select', G), ('validate', 'always', 5, 1, ('empty',)))]
+
+    def rand_ng(self, rng, depth, budget):
+        lv = self.leaves()
+        r = rng.random()
+        if budget <= 0 or r < 0.22:
+            if rng.random() < 0.3:
+                return ('lift', gen.random_grammar(rng, 2, lv[:12], gen.C01_UNARIES[:6], gen.C01_BINARIES[:4]))
+            return ('lift', rng.choice(lv))
+        if r < 0.55 and depth > 0:
+            return ('nest', self.rand_ng(rng, depth - 1, budget - 1), rng.choice(self.token_parsers(rng)))
+        if r < 0.72:
+            return ('nthen', self.rand_ng(rng, depth, budget - 1), self.rand_ng(rng, depth, budget - 2))
+        if r < 0.86:
+            return ('nor', self.rand_ng(rng, depth, budget - 1), self.rand_ng(rng, depth, budget - 2))
+        if r < 0.93:
+            return ('nornot', self.rand_ng(rng, depth, budget - 1))
+        return ('nspan', self.rand_ng(rng, depth, budget - 1))
+
+    def rand_table(self, rng):
+        G = self.GIDS
+        A, B = gen.A, gen.B
+        tab = []
+        for i, g in enumerate(G):
+            n = rng.choice([0, 1, 1, 2, 2, 3])
+            pool = [A, B, A, B] + G[i + 1:] * 2 + ([g] if rng.random() < 0.1 else [])
+            tab.append((g, [rng.choice(pool) for _ in range(n)]))
+        return tab
+
+    @staticmethod
+    def table_str(tab):
+        return f'T {len(tab)} ' + ' '.join(f'{g} {len(k)} ' + ' '.join(map(str, k)) for g, k in tab).replace('  ', ' ')
+
+    def line(self, cid, gap, mode, tab, ng, inputs):
+        return f'NG {cid} rich {gap} {mode} 200 {self.table_str(tab)} G {render_ng(ng)} I {inputs}'.replace('  ', ' ')
+
+    def cases(self, tier, seed):
+        rng = random.Random(seed)
+        A, B = gen.A, gen.B
+        G = self.GIDS
+        lines = []
+        self.meta = {}
+        n_rand = 700 if tier == 'quick' else 7000
+        maxlen = 3 if tier == 'quick' else 4
+        for n in range(n_rand):
+            tab = self.rand_table(rng)
+            ng = self.rand_ng(rng, rng.randint(1, 4), rng.randint(2, 6))
+            if ng_depth(ng) == 0:
+                ng = ('nest', ng, ('select', G))
+            gap = rng.choice([0, 1, 3])
+            inputs = inputs_all(maxlen, [A, B, G[0], G[1]]) + ' ' + ' '.join(
+                inputs_lit([rng.choice([A, B] + G) for _ in range(rng.randint(1, 5))]) for _ in range(6))
+            for mode in ('parse', 'check'):
+                lines.append(self.line(f'r{n}{mode[0]}', gap, mode, tab, ng, inputs))
+        # implementation-only families
+        lv = self.leaves()
+        n_meta = 250 if tier == 'quick' else 2500
+        rest = ('collect', 'string', ('rep', ('any',), 0, None))
+        for n in range(n_meta):
+            tab = self.rand_table(rng)
+            gap = rng.choice([0, 1, 3])
+            a = self.rand_ng(rng, rng.randint(0, 2), rng.randint(1, 4))
+            # (x) nest(a, select g) on [g]  vs  (y) a on children(g)
+            for gi, (g, kids) in enumerate(tab):
+                lines.append(self.line(f'x{n}g{gi}', gap, 'parse', tab, ('nest', a, ('select', [g])), inputs_lit([g])))
+                lines.append(self.line(f'y{n}g{gi}', gap, 'parse', tab, a, inputs_lit(kids)))
+            # (t) remainder after the nested parse; (n/c/o) choice over a nested parse
+            inp = inputs_all(3, [A, B, G[0], G[1]])
+            c = ('lift', rng.choice(lv))
+            nest = ('nest', a, ('select', G))
+            lines.append(self.line(f't{n}', gap, 'parse', tab, ('nthen', nest, ('lift', rest)), inp))
+            lines.append(self.line(f'n{n}', gap, 'parse', tab, ('nthen', nest, ('lift', rest)), inp))
+            lines.append(self.line(f'c{n}', gap, 'parse', tab, ('nthen', c, ('lift', rest)), inp))
+            lines.append(self.line(f'o{n}', gap, 'parse', tab, ('nthen', ('nor', nest, c), ('lift', rest)), inp))
+        return lines
+
+    def corpus(self):
+        tab = [(1000, [97, 1001]), (1001, [98])]
+        sel = ('select', [1000, 1001])
+        ng1 = ('nthen', ('lift', ('just', [97])), ('nest', ('nthen', ('lift', ('any',)), ('nest', ('nspan', ('lift', ('just', [98]))), sel)), sel))
+        ng2 = ('nthen', ('lift', ('just', [97])), ('nor', ('nest', ('lift', ('any',)), sel), ('lift', ('to', ('vnat', 5), ('any',)))))
+        # inner emission + inner failure under an outer choice; inner recovery
+        ng3 = ('nor', ('nest', ('nthen', ('lift', ('validate', 'always', 5, 1, ('any',))), ('lift', ('just', [98]))), sel), ('lift', ('any',)))
+        ng4 = ('nest', ('lift', ('recvia', ('just', [98]), ('to', ('vnat', 9), ('any',)))), sel)
+        inp = inputs_all(3, [97, 98, 1000, 1001])
+        out = []
+        for i, ng in enumerate([ng1, ng2, ng3, ng4]):
+            for gap in (0, 1, 3):
+                for mode in ('parse', 'check'):
+                    out.append(self.line(f'k{i}g{gap}{mode[0]}', gap, mode, tab, ng, inp))
+        return out
+
+    def group_of(self, line):
+        cid = line.split(' ')[1]
+        m = _re.match(r'([a-z])(\d+)', cid)
+        if not m:
+            return cid
+        fam, n = m.group(1), m.group(2)
+        if fam in ('x', 'y'):
+            return 'xy' + n
+        if fam in ('n', 'c', 'o'):
+            return 'nco' + n
+        if fam == 'r':
+            return 'r' + n
+        return cid
+
+    def custom_run(self, lines, tier, seed, jobs):
+        import multiprocessing
+        n = max(1, min(jobs * 3, len(lines)))
+        chunks = [[] for _ in range(n)]
+        gidx = {}
+        for l in lines:
+            g = self.group_of(l)
+            if g not in gidx:
+                gidx[g] = len(gidx) % n
+            chunks[gidx[g]].append(l)
+        with multiprocessing.Pool(jobs) as pool:
+            results = pool.map(_nested_worker, [c for c in chunks if c])
+        tot = {'pairs': 0, 'corr_disagree': 0, 'pred_fail': 0, 'outcomes': {}, 'impl_s': 0.0, 'model_s': 0.0, 'crash': None,
+               'samples': [], 'nontrivial': 0}
+        fails = []
+        impl, model = {}, {}
+        for rci, oi, rcm, om in results:
+            if rci != 0 or rcm != 0:
+                tot['crash'] = f'h_nested rc={rci} driver rc={rcm}'
+            for l in oi.split('\n'):
+                if l.startswith('ERR '):
+                    fails.append(('bad-line', None, 0, l))
+                    continue
+                sp = l.split(' ', 2)
+                if len(sp) == 3:
+                    impl.setdefault(sp[0], {})[sp[1]] = sp[2]
+            for l in om.split('\n'):
+                if l.startswith('ERR '):
+                    fails.append(('bad-line', None, 0, l))
+                    continue
+                sp = l.split(' ', 2)
+                if len(sp) == 3:
+                    model.setdefault(sp[0], {})[sp[1]] = sp[2]
+        by_id = {l.split(' ')[1]: l for l in lines}
+        inputs_cache = {}
+
+        def inputs_of(cid):
+            if cid not in inputs_cache:
+                inputs_cache[cid] = expand_inputs(by_id[cid].partition(' I ')[2].split())
+            return inputs_cache[cid]
+
+        def desc(cid, k):
+            line = by_id[cid]
+            return f'{line.partition(" I ")[0]} || input #{k} = {inputs_of(cid)[k]}'
+
+        for key, mo in model.items():
+            cid, _, k = key.rpartition('.')
+            line = by_id.get(cid)
+            if line is None:
+                continue
+            k = int(k)
+            a = impl.get(key, {}).get('M')
+            tot['pairs'] += 1
+            if a is None:
+                fails.append(('missing', None, 0, f'{key}: no implementation observation'))
+                continue
+            im, mm, ss = parse_M(a), parse_M(mo.get('M', '')), parse_S(mo.get('S', ''))
+            oc = im['kind'] + ('+' if im.get('out') is not None else '-') + ('e' if im.get('errs') and im.get('out') is not None else '')
+            tot['outcomes'][oc] = tot['outcomes'].get(oc, 0) + 1
+            toks = inputs_of(cid)[k]
+            if any(t >= 1000 for t in toks):
+                tot['nontrivial'] += 1
+            check_mode = ' check ' in line[:40]
+            pred, why = True, self.why
+            # (1) the reading applied recursively: acceptance, output, emitted errors (in order), inspector
+            if ss['kind'] == 'P':
+                pred = im['kind'] == 'P'
+            elif ss['kind'] == 'OOF':
+                pred = True
+            elif im['kind'] != 'R':
+                pred = False
+            elif ss['kind'] == 'fail':
+                pred = im['out'] is None
+            else:
+                want = 'u' if check_mode else ss['val']
+                pred = im['out'] == want and emits_match(im['errs'], ss['emits']) and im['insp'] == ss['insp']
+            fam = cid[0]
+            # (2) implementation-only families
+            if pred and fam == 'x':
+                other = impl.get('y' + cid[1:] + '.0', {}).get('M')
+                if other is not None:
+                    io = parse_M(other)
+                    # observed inspector states differ by construction (the outer parse has seen the group token)
+                    noinsp = lambda o: None if o is None else _re.sub(r'i\d+:\d+', 'i', o)
+                    if (noinsp(im.get('out')), im.get('errs')) != (noinsp(io.get('out')), io.get('errs')) or im['kind'] != io['kind']:
+                        pred = False
+                        why = f'nest(a, select g) on [g] differs from a run directly on the children of g: direct run gives {other}'
+            if pred and fam == 't' and im['kind'] == 'R' and im.get('out') is not None:
+                want_rest = 's' + '.'.join(str(t) for t in toks[1:])
+                if not im['out'].endswith(' ' + want_rest + ')'):
+                    pred = False
+                    why = f'the outer input was not advanced by exactly the group token: remainder should be {want_rest}'
+            if pred and fam == 'o':
+                nn = impl.get('n' + cid[1:] + f'.{k}', {}).get('M')
+                cc = impl.get('c' + cid[1:] + f'.{k}', {}).get('M')
+                if nn is not None and cc is not None:
+                    pn, pc = parse_M(nn), parse_M(cc)
+                    if pn['kind'] == 'R' and pc['kind'] == 'R' and im['kind'] == 'R':
+                        if pn['out'] is not None:
+                            ok = im['out'] == pn['out'] and im['errs'] == pn['errs']
+                        else:
+                            # a recovery inside the other alternative reports the pending error, which by the priority rule may
+                            # be the (further) failure of the abandoned nested parse: same output, same number of errors
+                            ok = im['out'] == pc['out'] and (pc['out'] is None or len(im['errs']) == len(pc['errs']))
+                        if not ok:
+                            pred = False
+                            why = f'choice over a nested parse: nested alone gives {nn}, the other alternative alone gives {cc}'
+            if not pred:
+                tot['pred_fail'] += 1
+                self.fail(tot, fails, 'pred', None, 0, f'{why} || {desc(cid, k)} || impl: {a} || spec: {mo.get("S")}')
+            elif a != mo.get('M'):
+                tot['corr_disagree'] += 1
+                self.fail(tot, fails, 'corr', None, 0, f'{desc(cid, k)} || impl: {a} || model: {mo.get("M")}')
+            elif len(tot['samples']) < 3 and im.get('out') is not None and im.get('errs') and any(t >= 1000 for t in toks) and fam == 'r':
+                tot['samples'].append({'case': line.partition(' I ')[0], 'input': toks, 'impl': a})
+        return tot, fails
+
+
+PROPS = {p.name: p for p in [C01(), ALL(), C04(), C02(), C03(), C05(), C08(), C15(), C18(), C06(), C17(), C20(), C11(), C12(), C13(), C14(), C09(), C19(), C07(), C10(), C16()]}
 for _s in ['c01', 'c02', 'emit', 'rec', 'deco', 'ctx', 'ek', 'state']:
     PROPS['ALL_' + _s] = ALL([_s])
     PROPS['ALL_' + _s].name = 'ALL_' + _s
